@@ -29,7 +29,15 @@ Inductive op :=
 | Remove (v : Z)
 | Reverse
 | Sort (keymod : Z) (reverse : bool)       (* l.sort(key=..., reverse=...); keymod 0: no key, m > 0: key = item mod m *)
-| Clear.
+| Clear
+(* integer-like arguments that are not ints: an object whose only integer behaviour is __index__ (no <, no +).
+   The built-in list converts it with __index__ and proceeds; see F26 in known_findings.d/C05.json *)
+| InsertX (i : Z) (v : Z)                 (* l.insert(Idx(i), v) *)
+| PopX (i : Z)                            (* l.pop(Idx(i)) *)
+| ImulX (n : Z).                          (* l *= Idx(n) *)
+
+(* the operations whose integer argument is such an object *)
+Definition xkey (o : op) : bool := match o with InsertX _ _ | PopX _ | ImulX _ => true | _ => false end.
 
 (* what one operation shows: outcome class, contents afterwards, the calls a
    recording notifier received, the value returned (pop) *)
@@ -45,7 +53,10 @@ Definition raise (e : exn) (l : list Z) : obs := mkObs (Raise e) l [] None.
 
 (* Python equality between items: the atoms 300+i stand for the float i.0, which equals the int i
    (list.index / list.remove compare with ==, so they find an equal item that is not the same value) *)
-Definition canon_atom (a : Z) : Z := if (300 <=? a) && (a <? 400) then a - 300 else a.
+(* Identity: an atom >= 1000 is 1000*j + v, the j-th distinct OBJECT with the value atom v (two floats 1.0 created
+   separately are equal, of the same type, and still two things a list can permute); its value part is v. *)
+Definition vpart (a : Z) : Z := if 1000 <=? a then a mod 1000 else a.
+Definition canon_atom (a : Z) : Z := let v := vpart a in if (300 <=? v) && (v <? 400) then v - 300 else v.
 Definition py_eq (a b : Z) : bool := canon_atom a =? canon_atom b.
 
 (* the ordering list.sort uses: the items themselves, or their keys (equal keys keep their order) *)
@@ -180,6 +191,9 @@ Section WithValidator.
         let l' := sort (key_leb m) r l in ok l' (if nonempty l then [(I 0, l, l')] else [])
     | Clear =>                                             (* l.367-373 *)
         ok [] (if nonempty l then [(I 0, l, [])] else [])
+    | InsertX _ _ => raise TypeError l                     (* l.402 `if index < 0:` on an object without < *)
+    | PopX _ => raise TypeError l                          (* l.432 `... if index < 0 else index` *)
+    | ImulX _ => raise TypeError l                         (* l.302 `if value < 1:` *)
     end.
 
   (* ---------------- TraitListObject ---------------- *)
@@ -208,6 +222,9 @@ Section WithValidator.
     | Pop _ | Remove _ => Ok (Some (Z.max (len - 1) 0))
     | Clear => Ok (Some 0)
     | Reverse | Sort _ _ => Ok None                          (* not overridden *)
+    | InsertX _ _ => Ok (Some (len + 1))                    (* l.761: the length is checked first *)
+    | PopX _ => Ok (Some (Z.max (len - 1) 0))               (* l.784 *)
+    | ImulX _ => Raise TypeError                            (* l.678: len(self) * value already fails *)
     end.
 
   Definition tlo_step0 (minlen : Z) (maxlen : option Z) (l : list Z) (o : op) : obs :=
@@ -236,15 +253,26 @@ Section WithValidator.
     end.
 End WithValidator.
 
+(* copies of a TraitList (l.499-524), see C05/Corr.v *)
+Inductive copykind := CopyCopy | CopyDeep | CopyPickle.
+
+Definition tl_copy (vld : Z -> option Z) (k : copykind) (l : list Z) : res (list Z) :=
+  match k with
+  | CopyPickle => Ok (map vpart l)          (* unpickling creates new objects: equal values, other identities *)
+  | CopyCopy | CopyDeep => match vld_all vld l with Some ys => Ok ys | None => Raise TraitError end
+  end.
+
 (* The validators of the correspondence harness (atoms: 0..99 the ints, 100+i the
-   string "i", 200.. objects that no Int/CInt validator accepts, 300+i the float i.0). *)
+   string "i", 200.. objects that no Int/CInt validator accepts, 300+i the float i.0,
+   1000*j + v the j-th distinct object with value v). *)
 Inductive vkind := VAll | VInt | VCInt | VInc.   (* VInc: a non-idempotent conversion, x -> x + 1 on 0..89 *)
 Definition vld_of (k : vkind) (x : Z) : option Z :=
   match k with
   | VAll => Some x
   | VInt => if (0 <=? x) && (x <? 100) then Some x else None
-  | VCInt => if (0 <=? x) && (x <? 100) then Some x
-             else if (100 <=? x) && (x <? 200) then Some (x - 100)
-             else if (300 <=? x) && (x <? 400) then Some (x - 300) else None
+  | VCInt => let v := vpart x in
+             if (0 <=? v) && (v <? 100) then Some v
+             else if (100 <=? v) && (v <? 200) then Some (v - 100)
+             else if (300 <=? v) && (v <? 400) then Some (v - 300) else None
   | VInc => if (0 <=? x) && (x <? 90) then Some (x + 1) else None
   end.
